@@ -326,6 +326,14 @@ class Interp:
                 r = Tup([])
             elif path in ("<T as std::convert::Into<U>>::into", "<T as std::convert::From<T>>::from") and isinstance(args[0], (BV, BF)):
                 r = args[0]
+            elif path.startswith("std::convert::num::<impl std::convert::From<u") and path.endswith(">::from") and isinstance(args[0], (BV, BF)):
+                import re as _re2
+                m2_ = _re2.search(r"From<u(\d+|size)> for u(\d+|size)>::from", path)
+                wt2 = 64 if m2_ is None or m2_.group(2) == "size" else int(m2_.group(2))
+                r = (args[0] if isinstance(args[0], BV) else BV([args[0]])).zext(wt2)      # lossless widening
+            elif (path.endswith(" as std::ops::DerefMut>::deref_mut") or path.endswith(" as std::ops::Deref>::deref") or path.endswith("::as_mut_slice") or path.endswith("::as_slice")
+                  or path.endswith("::as_mut") or path.endswith("::as_ref")) and isinstance(args[0], (View, CellRef)):
+                r = args[0]       # a view of the same bytes
             elif path.endswith("ByteOrder>::write_u16"):
                 v = args[0]; mem[v.arr][v.off] = BV(args[1].bits[8:16]); mem[v.arr][v.off + 1] = BV(args[1].bits[0:8]); r = Tup([])
             elif path.endswith("as std::ops::Try>::branch") and isinstance(args[0], EnumV):
@@ -400,6 +408,8 @@ class Interp:
                     sub = Interp.__new__(Interp); sub.fns = self.fns; sub.models = self.models; sub.self_fields = getattr(self, "self_fields", {})
                     r, mem2 = sub.run(key, args, mem)
                     for kk in mem: mem[kk] = mem2[kk]
+                    if r is None and (self.fns[key]["locals"][0].get("k") == "tuple" and not self.fns[key]["locals"][0].get("n")):
+                        r = Tup([])      # a local function returning ()
             if r is None and not (path.endswith("write_u16") or path.endswith("write_u32")): raise Undecided("call " + path)
             self.write(t["dest"], r, env, mem)
             return self._exec(f, t["target"], env, mem, pc, results, depth)
